@@ -326,6 +326,21 @@ theorem decimal_quirks (P0 d s : Bytes) (p : Nat) (z : Int) (hnd : ∀ c ∈ P0,
 example : decFromString [49, 46, 45, 53] 2 = some 95 ∧ decFromString [49, 46, 45, 53] 1 = none ∧
     decFromString [49, 46, 43, 53] 2 = some 105 ∧ decFromString [49, 46, 53] 2 = some 150 := by decide
 
+/-- C18 (decimals / Fixed8, print∘parse): for every accepted string, printing the parsed value gives the
+string back iff the string is one the printer produces (for some value); on those strings both
+compositions are the identity. A structural description of that image (no '+', no leading zeros, an
+unsigned fraction without trailing zeros, "-0" only before a non-zero fraction) is NOT proved. -/
+theorem decimal_print_parse_fixedpoints (s : Bytes) (p : Nat) (v : Int) (h : decFromString s p = some v) :
+    decToString v p = s ↔ ∃ bi, s = decToString bi p := dec_print_parse_fixed s p v h
+
+theorem fixed8_print_parse_fixedpoints (s : Bytes) (v : Int) (hr : -(2:Int)^63 ≤ v ∧ v < (2:Int)^63)
+    (h : fixed8FromString s = some v) :
+    fixed8String v = s ↔ ∃ w, (-(2:Int)^63 ≤ w ∧ w < (2:Int)^63) ∧ s = fixed8String w :=
+  fixed8_print_parse_fixed s v hr h
+
+-- "+1.50" and "1.5" both parse to 150 at precision 2, so at most one of them is printed
+example : decFromString [43, 49, 46, 53, 48] 2 = some 150 ∧ decFromString [49, 46, 53] 2 = some 150 := by decide
+
 /-- C18 (Fixed8, out-of-range text): `Fixed8FromString` never fails on range; it returns the parsed
 decimal wrapped to int64 (the int64 congruent to it modulo 2^64). -/
 theorem fixed8_parse_wraps (s : Bytes) (w : Int) :
